@@ -25,7 +25,7 @@ type bfEnv struct {
 	// a search loop ("this element does not qualify")
 	continueAs *tri
 	// inline, when set, resolves a call to the body of a function whose result the decision delegates to
-	inline func(call *ast.CallExpr) (*ast.BlockStmt, *types.Info)
+	inline func(call *ast.CallExpr) (*ast.FuncDecl, *types.Info)
 	depth  int
 }
 
@@ -69,10 +69,61 @@ func (e *bfEnv) eval(x ast.Expr) tri {
 	// a predicate moved into a helper of the package: evaluate the helper's body under the same atoms (the atoms are
 	// recognised by what they call, so the helper's parameter names do not matter); bounded depth
 	if call, ok := x.(*ast.CallExpr); ok && e.inline != nil && e.depth < 3 {
-		if body, info := e.inline(call); body != nil {
-			sub := &bfEnv{info: info, atom: e.atom, lookup: e.lookup, store: e.store, locals: map[types.Object]tri{}, inline: e.inline, depth: e.depth + 1}
+		if decl, info := e.inline(call); decl != nil && decl.Body != nil {
+			// the helper's parameters stand for the caller's argument expressions: the atoms, lookups and stores the
+			// rule recognises are phrased over the caller's variables, so expressions met inside the helper are
+			// rewritten (parameter -> argument) before they are shown to the rule's callbacks
+			subst := map[types.Object]ast.Expr{}
+			i := 0
+			if decl.Type.Params != nil {
+				for _, f := range decl.Type.Params.List {
+					for _, nm := range f.Names {
+						if i < len(call.Args) {
+							if o := info.Defs[nm]; o != nil {
+								subst[o] = call.Args[i]
+							}
+						}
+						i++
+					}
+				}
+			}
+			var rw func(x ast.Expr) ast.Expr
+			rw = func(x ast.Expr) ast.Expr {
+				switch t := x.(type) {
+				case *ast.Ident:
+					if o := info.Uses[t]; o != nil {
+						if a, ok := subst[o]; ok {
+							return a
+						}
+					}
+				case *ast.ParenExpr:
+					return &ast.ParenExpr{X: rw(t.X)}
+				case *ast.UnaryExpr:
+					return &ast.UnaryExpr{Op: t.Op, X: rw(t.X)}
+				case *ast.BinaryExpr:
+					return &ast.BinaryExpr{X: rw(t.X), Op: t.Op, Y: rw(t.Y)}
+				case *ast.IndexExpr:
+					return &ast.IndexExpr{X: rw(t.X), Index: rw(t.Index)}
+				case *ast.SelectorExpr:
+					return &ast.SelectorExpr{X: rw(t.X), Sel: t.Sel}
+				case *ast.CallExpr:
+					args := make([]ast.Expr, len(t.Args))
+					for k, a := range t.Args {
+						args[k] = rw(a)
+					}
+					return &ast.CallExpr{Fun: rw(t.Fun), Args: args}
+				}
+				return x
+			}
+			sub := &bfEnv{
+				info:   info,
+				atom:   func(x ast.Expr) (tri, bool) { return e.atom(rw(x)) },
+				lookup: func(x ast.Expr) (tri, bool) { return e.lookup(rw(x)) },
+				store:  func(x ast.Expr) (string, bool) { return e.store(rw(x)) },
+				locals: map[types.Object]tri{}, inline: e.inline, depth: e.depth + 1,
+			}
 			var out bfOutcome
-			if sub.run(body.List, &out) && out.Undecided == "" && out.Returned {
+			if sub.run(decl.Body.List, &out) && out.Undecided == "" && out.Returned {
 				return out.Value
 			}
 		}
@@ -265,4 +316,4 @@ func bfEvalLoopBody(info *types.Info, body *ast.BlockStmt, notQualified tri, ato
 
 // bfInline is the resolver used by the evaluators; rules that want helper bodies followed set it for the duration of
 // their evaluation (nil: calls that are not atoms stay undecided).
-var bfInline func(call *ast.CallExpr) (*ast.BlockStmt, *types.Info)
+var bfInline func(call *ast.CallExpr) (*ast.FuncDecl, *types.Info)
